@@ -22,6 +22,14 @@ fn bundle(tag: u8, pad: usize) -> (SpendBundle, [u8; 32]) {
     // under the identity signature, 241 the spend-less bundle that carries tag 7's signature.  Only the two together verify.
     if tag == 240 { let (b, id) = bundle(7, pad); return (SpendBundle::new(b.coin_spends, Signature::default()), id); }
     if tag == 241 { let (b, _) = bundle(7, pad); return (SpendBundle::new(vec![], b.aggregated_signature), [0u8; 32]); }
+    // a bundle the builders cannot even parse: its solution (230) resp. its puzzle reveal (231) is a truncated serialisation.
+    // An attempt that contains it returns an error - and must leave the builder as it was
+    if tag == 230 || tag == 231 {
+        let (b, id) = bundle(9, pad);
+        let cs = &b.coin_spends[0];
+        let broken = if tag == 230 { CoinSpend::new(cs.coin, cs.puzzle_reveal.clone(), vec![0xffu8, 0x01].into()) } else { CoinSpend::new(cs.coin, Program::new(vec![0xffu8].into()), cs.solution.clone()) };
+        return (SpendBundle::new(vec![broken], b.aggregated_signature), id);
+    }
     if tag >= 200 {
         // a spend that shares no atom with the generator's wrapper or with the other spends except nil: puzzle `2` (the
         // first element of the solution), solution `(())` - no conditions, unsigned
@@ -188,7 +196,18 @@ pub fn run_batch_history(k: Kind, batches: &[Vec<u8>]) -> Result<String, String>
         for tags in batches {
             let made: Vec<(SpendBundle, [u8; 32])> = tags.iter().map(|t| bundle(*t, 0x80)).collect();
             let bundles: Vec<SpendBundle> = made.iter().map(|m| m.0.clone()).collect();
-            let declared: u64 = tags.iter().map(|t| match *t { 240 => true_cost(&bundle(7, 0x80).0), 241 => 0, t => true_cost(&bundle(t, 0x80).0) }).sum();
+            let declared: u64 = tags.iter().map(|t| match *t { 240 => true_cost(&bundle(7, 0x80).0), 241 => 0, 230 | 231 => 1_000_000, t => true_cost(&bundle(t, 0x80).0) }).sum();
+            if tags.iter().any(|t| *t == 230 || *t == 231) {
+                // the attempt must fail, and fail cleanly: the running cost is what it was
+                let before = b.cost();
+                match b.add_many(&bundles, declared) {
+                    Ok(v) => return Err(format!("a batch with an unparsable spend was not refused with an error (returned {v})")),
+                    Err(_) => {}
+                }
+                if b.cost() != before { return Err(format!("an attempt that failed with an error changed the running cost from {before} to {}", b.cost())); }
+                decisions.push('E');
+                continue;
+            }
             let added = b.add_many(&bundles, declared)?;
             if b.cost() > max { return Err(format!("running cost {} exceeds the limit", b.cost())); }
             decisions.push(if added { 'A' } else { 'r' });
@@ -224,6 +243,13 @@ pub fn batch_histories() -> Vec<(String, Kind, Vec<Vec<u8>>)> {
         v.push((format!("{kn}/two-batches-of-two"), k, vec![vec![1, 2], vec![3, 4]]));
         v.push((format!("{kn}/batch-of-five-disjoint"), k, vec![vec![200, 201, 202, 203, 204]]));
         v.push((format!("{kn}/empty-batch-then-two"), k, vec![vec![], vec![1, 2]]));
+        // attempts that fail with an error (unparsable solution / puzzle, alone or after good bundles of the same batch) between
+        // accepted ones: nothing of them is kept - not their spends, not their signatures, not their declared cost
+        v.push((format!("{kn}/error-between-accepted"), k, vec![vec![1], vec![230], vec![2]]));
+        v.push((format!("{kn}/error-puzzle-between-accepted"), k, vec![vec![1], vec![231], vec![2]]));
+        v.push((format!("{kn}/error-late-in-batch"), k, vec![vec![1], vec![2, 3, 230], vec![4]]));
+        v.push((format!("{kn}/error-first"), k, vec![vec![230], vec![1, 2]]));
+        v.push((format!("{kn}/error-last"), k, vec![vec![1, 2], vec![3, 231]]));
         // a bundle without spends still contributes its signature
         v.push((format!("{kn}/signature-in-a-spendless-bundle"), k, vec![vec![240, 241]]));
         v.push((format!("{kn}/spendless-bundle-first"), k, vec![vec![1], vec![241, 240, 2]]));
@@ -298,7 +324,7 @@ pub fn builders_ground(thorough: bool) -> EvalResult {
     for (name, k, batches) in batch_histories() {
         res.obligations += 1;
         match run_batch_history(k, &batches) {
-            Ok(info) => { if info.chars().all(|c| c == 'A') { res.discharged += 1; trace.push(format!("{name}:{info}")); } else if res.failures.len() < 6 {
+            Ok(info) => { if info.chars().all(|c| c == 'A' || c == 'E') { res.discharged += 1; trace.push(format!("{name}:{info}")); } else if res.failures.len() < 6 {
                 res.failures.push(json!({"id": format!("builders_ground/{name}"), "function": "BlockBuilder / InternedBlockBuilder",
                     "message": format!("history {name}: decisions '{info}': a batch with truthful costs far below the limit is refused"),
                     "clause": "batches of several bundles per call", "cex": {"unit": "eval", "function": "builders_ground", "input": {"history": name}}})); } }
